@@ -4,10 +4,11 @@
    as of the repaired tree (fix commits fad4ad4, 41cbeb6, 820a0e7, 1b17d58).
    Strings are lists of scalar values (Base/Str.v).  Definitions only. *)
 From Coq Require Import ZArith NArith List Bool.
-From SV Require Import Base.Num Base.Outcome Base.Str Model.Poly.
+From SV Require Import Base.Num Base.Outcome Base.Str Model.Poly Gen.Consts.
 Import ListNotations.
 
-Definition MAX_POWER : Z := 65535.
+(* pub const MAX_POWER in simple.rs, re-read on every run (Gen/Consts.v); [Eval compute] keeps the body a literal *)
+Definition MAX_POWER : Z := Eval compute in Gen.Consts.max_power.
 
 Section Parse.
   Context {T : Type} {NT : Num T}.
